@@ -13,6 +13,7 @@ INVARIANT C01_MonoX
 INVARIANT C01_MonoT_First
 INVARIANT C01_Relaxes
 INVARIANT C01_MMatrix
+INVARIANT C01_ProofForm
 INVARIANT C04_Residual
 INVARIANT C03_Conserve
 INVARIANT C03_ConserveIdeal
